@@ -47,6 +47,7 @@ func equalFacts(a, b factSet) bool {
 
 // NilFlow holds the non-nil facts at the entry of each block of a function.
 type NilFlow struct {
+	uninherited bool // a single-site helper analysed without the facts of its call site (the caller was busy)
 	phiBusy map[*ssa.Phi]bool // phis being evaluated by valueNonNil (cycle guard)
 	c     *Ctx
 	fn    *ssa.Function
@@ -213,7 +214,9 @@ func (c *Ctx) NilFlow(fn *ssa.Function) *NilFlow {
 	// a private helper with one call site starts with what is known at that site, said of its parameters (inline.go)
 	if h := helperOf(fn); h != nil && len(h.sites) == 1 && fn.Parent() == nil && !nilFlowInheriting[fn] {
 		caller := h.site.Parent()
-		if cnf, cached := nilFlowCache[caller]; !cached || !cnf.busy {
+		if cnf, cached := nilFlowCache[caller]; cached && cnf.busy {
+			nf.uninherited = true
+		} else {
 			nilFlowInheriting[fn] = true
 			cf := c.NilFlowCached(caller).FactsAt(h.site)
 			delete(nilFlowInheriting, fn)
@@ -499,6 +502,23 @@ func (nf *NilFlow) condFacts(cond ssa.Value, branch bool, f factSet, depth int) 
 			}
 		}
 	case *ssa.BinOp:
+		// x.M() compared with a constant, M being a method that answers one particular constant for a nil receiver
+		// (`func (t *token) Code() code { if t == nil { return tEOF }; … }`): any other answer means x is not nil
+		if x.Op == token.EQL || x.Op == token.NEQ {
+			if call, okc := x.X.(*ssa.Call); okc {
+				if cal := call.Call.StaticCallee(); cal != nil && nf.c.isRepoFn(cal) && len(call.Call.Args) == 1 {
+					if k, okk := nilReceiverAnswer(cal); okk {
+						if cv, okv := x.Y.(*ssa.Const); okv && cv.Value != nil {
+							same := cv.Value.ExactString() == k
+							eq := (x.Op == token.EQL) == branch // the comparison says "equal to cv"
+							if eq && !same || !eq && same {
+								f[AccessPath(call.Call.Args[0])] = true
+							}
+						}
+					}
+				}
+			}
+		}
 		// Kind() == "submodule" ⇒ BelongsTo != nil (SCHEMA.IFACE checks Module.Kind has exactly this meaning)
 		if x.Op == token.EQL || x.Op == token.NEQ {
 			call, okc := x.X.(*ssa.Call)
@@ -656,6 +676,12 @@ func (c *Ctx) NilFlowCached(fn *ssa.Function) *NilFlow {
 	// insert a placeholder to cut recursion through mayReturnNil → valueNonNil → mayReturnNil
 	nilFlowCache[fn] = &NilFlow{c: c, fn: fn, entry: map[*ssa.BasicBlock]factSet{}, top: map[*ssa.BasicBlock]bool{}, busy: true}
 	nf := c.NilFlow(fn)
+	if nf.uninherited {
+		// computed while the caller's own analysis was under way, without the facts of the call site: good enough
+		// for the question that was being asked, not to be kept
+		delete(nilFlowCache, fn)
+		return nf
+	}
 	nilFlowCache[fn] = nf
 	return nf
 }
@@ -938,4 +964,45 @@ func (c *Ctx) madeFields(fn *ssa.Function) []string {
 	}
 	madeFieldsCache[fn] = out
 	return out
+}
+
+var nilAnswerMemo = map[*ssa.Function]*string{}
+
+// nilReceiverAnswer: the method tests its receiver for nil first and answers a constant on that branch; the constant
+// (as an exact string). Only methods whose other returns cannot be told apart are of no use, so nothing more is asked.
+func nilReceiverAnswer(fn *ssa.Function) (string, bool) {
+	if v, done := nilAnswerMemo[fn]; done {
+		if v == nil {
+			return "", false
+		}
+		return *v, true
+	}
+	nilAnswerMemo[fn] = nil
+	if fn.Blocks == nil || len(fn.Params) != 1 || fn.Signature.Results().Len() != 1 {
+		return "", false
+	}
+	entry := fn.Blocks[0]
+	ifi, isIf := entry.Instrs[len(entry.Instrs)-1].(*ssa.If)
+	if !isIf {
+		return "", false
+	}
+	x, isEq, okn := nilTest(ifi.Cond)
+	if !okn || x != ssa.Value(fn.Params[0]) {
+		return "", false
+	}
+	nb := entry.Succs[1]
+	if isEq {
+		nb = entry.Succs[0]
+	}
+	r, isR := nb.Instrs[len(nb.Instrs)-1].(*ssa.Return)
+	if !isR || len(nb.Instrs) != 1 || len(r.Results) != 1 {
+		return "", false
+	}
+	k, isK := r.Results[0].(*ssa.Const)
+	if !isK || k.Value == nil {
+		return "", false
+	}
+	s := k.Value.ExactString()
+	nilAnswerMemo[fn] = &s
+	return s, true
 }
